@@ -666,7 +666,10 @@ class Engine:
         """write `leaf` at the end of trail [(parent, elem)...], rebuilding parents"""
         v = leaf
         for parent, e in reversed(trail):
+            child = v
             v = self._with_child(parent, e, v)
+            if e[0] == 'e' and isinstance(child, CollV) and isinstance(v, CollV) and isinstance(e[1], V):
+                st.vn[('elem-inst', v.key(), e[1].key())] = child
         st.store[root] = v
 
     def _child(self, st, cur, e):
@@ -717,10 +720,18 @@ class Engine:
             return StructV('v', {}), cur
         if k == 'e':
             if isinstance(cur, CollV):
+                # a nested collection (a row of the grid) keeps its identity while the outer collection
+                # is unchanged: the same key of the same version denotes the same inner collection
+                ck = ('elem-inst', cur.key(), e[1].key()) if isinstance(e[1], V) else None
+                if ck is not None and ck in st.vn:
+                    return st.vn[ck], cur
                 if cur.elem is not None:
-                    return self.summ.inst(st, cur.elem), cur
-                ety = elem_type(cur.ty, cur.kind)
-                return self.mk_default(st, ety), cur
+                    child = self.summ.inst(st, cur.elem)
+                else:
+                    child = self.mk_default(st, elem_type(cur.ty, cur.kind))
+                if ck is not None and isinstance(child, CollV):
+                    st.vn[ck] = child
+                return child, cur
             return OpaqueV('elem', next(_uid)), cur
         return OpaqueV('?', next(_uid)), cur
 
